@@ -48,4 +48,14 @@ PROPS = {
         "profiles": ["checked"],
         "assumptions": ["checked and wrapping arithmetic agree because no operation overflows on this domain (proved for the model, observed on both builds)"],
     },
+    "C06": {
+        "technique": "Lean 4 kernel evaluation over the regenerated complete graphs of determine_name/determine_class (all 65,536 values) against a specification of the 309 class names, linked to cards through the C01 class theorems",
+        "level_text": "Machine-checked Lean 4 theorems over graphs regenerated from the compiled crate: name and class are Invalid iff the value is 0 or above 7462 (for every value); the variant names equal the specification's names (309 generated descriptors + Invalid; 9 categories + Invalid) with discriminants 0,1,2,...; for every value 1..7462 the class variant is the descriptor, and the name variant the category, of the hand class the lookup tables send to that value (kernel pass over 7,462 values); every class is one contiguous non-empty range; converted ranks are self-consistent; for every five distinct real cards the reported rank's name and class strings are those of the hand's strength under the rules of poker.",
+        "level_note": "Trusts: Lean kernel; Spec/Names.lean as the meaning of the class names; rustc; extractor (graphs over all 65,536 values, variant lists by EnumIter + Debug); HandRank::from / is_invalid / is_a_valid_hand_rank are one-line hand models compared with the crate on all 65,536 values.",
+    },
+    "C07": {
+        "technique": "Lean 4 proof: comparison equals comparison of an explicit injective integer key (case analysis + omega) using the regenerated validity ranges; kernel evaluation of the derived enum orders on all 10^2 + 310^2 pairs",
+        "level_text": "Machine-checked Lean 4 theorems about the model of the repaired Ord: for ALL pairs of 16-bit values cmp (from a) (from b) = compare (keyOf a) (keyOf b) with keyOf injective, hence equal only when equal, antisymmetric, transitive over all triples; valid ranks with lower value greater, invalid below valid; operators agree; the derived order of both enumerations is discriminant order on every pair (regenerated comparison matrices) and both discriminants never decrease along v = 1..7462. The pinned (unrepaired) cmp is refuted at (0, 7463).",
+        "level_note": "Trusts: Lean kernel; rustc; extractor (validity ranges from the complete determine_name graph; Ord/PartialOrd/Eq of the enums on every pair); the five-branch cmp is a hand model compared with the crate on boundary and seeded pairs (all 2^32 pairs against the key in the thorough sweep).",
+    },
 }
